@@ -136,8 +136,52 @@ def n1(ctx, F):
     return ks
 
 
+def n6(ctx, F, rule="C10.N6"):
+    """N6 the root answers from the table only with an entry that is exact and at least as deep as the iteration asked for: a bound,
+    or a shallower result, handed back as the result of iteration d means the search never looks d plies ahead (from a fresh table
+    every iteration after the first is then answered by the first one and no mate is ever seen)."""
+    fn = F.fn("search::get_best_move_entry")
+    body = fn["hir"]["body"]
+    sym = hir.Sym(hir.Env(fn["hir"], F), F)
+    SOME = "std::prelude::v1::Some"
+    n = 0
+    for r, anc in hir.walk(body):
+        if r.get("k") != "Ret" or r.get("e") is None or any(a_.get("k") == "Loop" for a_ in anc):
+            continue
+        g = hir.guards_of(r, body, sym) or []
+        term = hir.guards_term(g)
+        gets = [t_ for t_ in hir.subterms(term) if isinstance(t_, tuple) and t_[:1] == ("call",) and str(t_[1]).endswith("HashMap::<K, V, S, A>::get")]
+        if not gets:
+            continue
+        t1 = hir.fold(term, {g_: ("ctor", SOME, (("var", "ENTRY"),)) for g_ in gets})
+        flds = {t_ for t_ in hir.subterms(t1) if isinstance(t_, tuple) and t_[:1] == ("field",) and t_[1] == ("var", "ENTRY")}
+        if not any(f_[2] == "depth" for f_ in flds):
+            continue
+        n += 1
+        bad = []
+        for de in (4, 5, 6):
+            for flag in ("Exact", "LowerBound", "UpperBound"):
+                a = {("var", "depth"): ("lit", 5)}
+                for f_ in flds:
+                    if f_[2] == "depth":
+                        a[f_] = ("lit", de)
+                    if f_[2] == "flag":
+                        a[f_] = ("variant", "search::NodeType::" + flag)
+                v = hir.fold(hir.fold(t1, a), a)
+                want = de >= 5 and flag == "Exact"
+                is_false = v == ("lit", False) or hir.all_leaves_false(v)
+                if is_false == want:        # (conditions that do not look at the entry stay open: they decide nothing here)
+                    bad.append(((de, flag), hir.fmt(v, 40)))
+        ctx.check(rule, "root-answers-from-the-table-only-with-a-deep-exact-entry", not bad, fn=fn["path"], file=fn["file"], line=hir.line(r),
+                  what="the root hands back a cached result that is not exact or not as deep as the iteration: the search does not look as "
+                       "far ahead as it was asked to", expected="entry.depth >= depth && entry.flag == Exact",
+                  found=bad[:4])
+    ctx.floor(rule, "table shortcuts at the root", n, 1)
+
+
 def run_rest(ctx, F, ks):
     n4(ctx, F)
+    n6(ctx, F)
     # N5: a mating move can stand anywhere in the ordered list and need not look tactical: every generated move must be searched
     # unless a cut-off ends the node (forward pruning hides quiet and discovered mates) - the census of loop exits of C09.B3
     from . import p09
